@@ -449,6 +449,29 @@ func caseMulti() {
 			ops = append(ops, listTokens(p, kind, lerr, ns)...)
 		default:
 			src := Pick(rnd, names)
+			if rnd.Chance(60) {
+				// storage.Copy ACROSS buckets (what the worker's copy handler does), mostly under the same
+				// object name: the destination bucket gets the source's bytes
+				r2, j2 := rnd.Intn(2), rnd.Intn(3)
+				if r2 == r && j2 == j {
+					j2 = (j2 + 1) % 3
+				}
+				dst := src
+				if rnd.Chance(25) {
+					dst = name
+				}
+				ok := func() (ok bool) {
+					defer func() {
+						if recover() != nil {
+							ok = false
+						}
+					}()
+					return storage.Copy(ctx, handles[r2][j2].Object(dst), b.Object(src)) == nil
+				}()
+				ops = append(ops, "x", I(int64(r2)), I(int64(j2)), HS(dst), HS(src), B(ok))
+				out.Note("multi:copy-across-buckets")
+				break
+			}
 			ops = append(ops, "c", HS(name), HS(src), B(doCopy(b, name, src)))
 		}
 	}
